@@ -892,7 +892,15 @@ class BackendZ3(Backend):
     @condom
     def _primitive_from_model(self, model, expr):
         v = model.eval(expr, model_completion=True)
-        return self._abstract_to_primitive(v.ctx.ctx, v.ast)
+        try:
+            return self._abstract_to_primitive(v.ctx.ctx, v.ast)
+        except ClaripyError:
+            # the model evaluator can leave a ground term unevaluated (int2bv of str.indexof with a huge offset):
+            # the simplifier finishes the job
+            simplified = z3.simplify(v)
+            if simplified.eq(v):
+                raise
+            return self._abstract_to_primitive(simplified.ctx.ctx, simplified.ast)
 
     #
     # New, model-driven solves
